@@ -312,8 +312,9 @@ theorem isSpecE (ps : PSchema) (flag : Bool) (hs : WFSchema (lowerSchema ps) = t
       simp only [lowerTy, okE, Bool.and_eq_true, decide_eq_true_eq] at hy
       have hdw := decls_wf _ hs i
       simp only [EncE, recE, lowerTy, wtOf, payE]
-      refine ⟨by first | rfl | trivial, recsSlots (lowerSchema ps) flag (decls (lowerSchema ps) i) fs, ?_, ?_⟩
+      refine ⟨by first | rfl | trivial, recsSlots (lowerSchema ps) flag (decls (lowerSchema ps) i) fs, ?_, ?_, ?_⟩
       · rw [flat_recsSlots _ flag hs _ fs hy.1, lenDelim_eq, ← lenSlots_eq _ flag hs _ hdw.1 fs hy.1]
+      · rw [flat_recsSlots _ flag hs _ fs hy.1, ← lenSlots_eq _ flag hs _ hdw.1 fs hy.1]; exact hy.2
       · have := isSpecSlots ps flag hs (pdecls ps i) fs (by rw [← decls_lower]; exact hdw.1) (by rw [← decls_lower]; exact hdw.2)
           (by rw [← decls_lower]; exact hy.1)
         rw [← decls_lower] at this
@@ -432,10 +433,12 @@ theorem isSpecMap (ps : PSchema) (flag : Bool) (hs : WFSchema (lowerSchema ps) =
   | nil => simp [EncMap, recsPairs]
   | cons kk v r =>
     simp only [okPairs, Bool.and_eq_true] at hy
-    obtain ⟨⟨⟨⟨⟨hkok, _⟩, hve⟩, hdef⟩, _⟩, hr⟩ := hy
+    obtain ⟨⟨⟨⟨⟨hkok, hkl⟩, hve⟩, hdef⟩, hlen⟩, hr⟩ := hy
     simp only [EncMap, recsPairs]
-    refine ⟨_, _, rfl, rfl, rfl, ⟨entryRecs (lowerSchema ps) flag k.codec (lowerTy vty) kk v, rfl, ?_, ?_, ?_⟩,
+    refine ⟨_, _, rfl, rfl, rfl, ⟨entryRecs (lowerSchema ps) flag k.codec (lowerTy vty) kk v, rfl, ?_, ?_, ?_, ?_⟩,
       isSpecMap ps flag hs t k hk vty r hr⟩
+    · rw [entry_len _ flag hs k.codec (lowerTy vty) kk v ((lenOk_iff kk).mp hkl) hve]
+      simpa using hlen
     · intro x hx
       unfold entryRecs at hx
       simp only [List.mem_append] at hx
